@@ -174,7 +174,7 @@ def apply(chk, rid, sites, floor=None):
     """Declare and evaluate the rule for the given (module, function) sites."""
     chk.rule(rid, "per-variant loops (for ..., X_v in zip(..., X.iter_variants(), ...)) work on the variant: inside the loop the "
              "container X is neither passed to a callee's per-variant parameter (*_v) nor asked for variant data "
-             "(X.get_data_variant() defaults to variant 0)", floor=floor if floor is not None else len(sites))
+             "(X.get_data_variant() defaults to variant 0)", floor=floor if floor is not None else len(sites), shape_independent=True)
     n = self_check()
     for modname, qual in sites:
         m = chk.repo.mod(modname)
